@@ -104,10 +104,21 @@ class MSTensor(AtomsProperty):
         grad_list = [-1] * len(ms_list)
         if "ref" in kwargs:
             ref = kwargs.pop("ref")
-            ref_list = [ref[symbol] if isinstance(ref, dict) else ref for symbol in symbols]
+            if isinstance(ref, (list, np.ndarray)):
+                # one reference per site, as in MSShift
+                if len(ref) != len(symbols):
+                    raise ValueError("Reference list must have one item per site")
+                ref_list = list(ref)
+            else:
+                ref_list = [ref[symbol] if isinstance(ref, dict) else ref for symbol in symbols]
         if "grad" in kwargs:
             grad = kwargs.pop("grad")
-            grad_list = [grad[symbol] if isinstance(grad, dict) else grad for symbol in symbols]
+            if isinstance(grad, (list, np.ndarray)):
+                if len(grad) != len(symbols):
+                    raise ValueError("Gradient list must have one item per site")
+                grad_list = list(grad)
+            else:
+                grad_list = [grad[symbol] if isinstance(grad, dict) else grad for symbol in symbols]
 
         ms_tensors = [MagneticShielding(ms, species=symbol, order=order, reference=ref, gradient=grad)
                         for ms, symbol, ref, grad in zip(ms_list, symbols, ref_list, grad_list)]
